@@ -7,6 +7,7 @@ import (
 	"bytes"
 	"fmt"
 	"sort"
+	"strings"
 	"verifharness/smtpd"
 	"verifharness/vh"
 )
@@ -90,6 +91,18 @@ func gen(g *vh.Gen) {
 		}
 		g.Emit("smtp", append(c.Fields(), fmt.Sprintf("%s^%d", smtpd.NetField(chunks, g.Pick("eof", "eof", "idle", "err")), g.Intn(30)))...)
 	}
+	// sessions that overlap: the first one is held inside Deliver while the others run from greeting to end
+	// ("isolated from each other": what a session read from its client is what it stores)
+	for i := 0; i < g.N(40, 1500); i++ {
+		c, pool := smtpd.GenCfg(g, oc)
+		c.DA, c.DS, c.Rej, c.Dis = true, true, "", ""
+		n := 2 + g.Intn(2)
+		hs := make([]string, n)
+		for j := range hs {
+			hs[j] = vh.H(smtpd.GenDialogue(g, c, pool, smtpd.Opts{Garbage: 0.02, MaxBody: g.Pick2(40, 400, 3000)}))
+		}
+		g.Emit("smtppar", append(c.Fields(), strings.Join(hs, "+"))...)
+	}
 	// one pause at every byte offset of valid dialogues
 	for i := 0; i < g.N(3, 150); i++ {
 		c, pool := smtpd.GenCfg(g, oc)
@@ -105,10 +118,13 @@ func gen(g *vh.Gen) {
 }
 
 func exec(kind string, in []string) []string {
-	if kind != "smtp" {
-		return []string{"UNKNOWN-KIND"}
+	switch kind {
+	case "smtp":
+		return smtpd.Exec(in)
+	case "smtppar":
+		return smtpd.ExecPar(in)
 	}
-	return smtpd.Exec(in)
+	return []string{"UNKNOWN-KIND"}
 }
 
 func main() { vh.Main(gen, exec) }
